@@ -799,6 +799,84 @@ theorem C06_friendly_appends_are_recovered (c : Cfg) (hc : CfgOK c) (p : Proc) (
       exact Nat.le_trans (Nat.mul_le_mul_right _ (by simpa using hlen)) hroom)
   exact C06_scan_recovers_laid_file c hc.meta_pos f _ L 0 fuel s (by simpa using hlaid) hfuel
 
+/-! the same, stated on programs of the engine model (`Eng.step`), the vocabulary of the correspondence runs -/
+
+/-- run a list of `append` operations through `Eng.step` -/
+def execAppends (c : Cfg) : Proc → List (Topic × Pay) → Proc
+  | p, [] => p
+  | p, (t, pay) :: r => execAppends c (Eng.step c p (.append t pay)).1 r
+
+theorem diskInv_inst_irrelevant (c : Cfg) (p : Proc) (i : Inst) (x : Option Inst) (f : Nat) (L : List LBlock)
+    (h : DiskInv c p i f L) : DiskInv c { p with inst := x } i f L :=
+  ⟨h.file, h.inrange, h.alloc, h.lay, h.stray, h.writers⟩
+
+theorem diskInv_execAppends (c : Cfg) (hc : CfgOK c) (f : Nat) (ops : List (Topic × Pay)) :
+    ∀ (p : Proc) (i : Inst) (L : List LBlock), p.inst = some i → DiskInv c p i f L → Friendly c ops →
+      (L.length + ops.length) * c.blockSize ≤ c.fileSize →
+      ∃ i' L', (execAppends c p ops).inst = some i' ∧ DiskInv c (execAppends c p ops) i' f L' ∧
+        L'.length ≤ L.length + ops.length ∧
+        ∀ t, entriesOf t L' = entriesOf t L ++ (ops.filter (fun x => x.1 = t)).map (·.2) := by
+  induction ops with
+  | nil => intro p i L hi h _ _; exact ⟨i, L, hi, h, by simp, by simp⟩
+  | cons op r ih =>
+    intro p i L hi h hf hroom
+    obtain ⟨t, pay⟩ := op
+    have hfo := hf (t, pay) List.mem_cons_self
+    have hroom1 : (L.length + 1) * c.blockSize ≤ c.fileSize :=
+      Nat.le_trans (Nat.mul_le_mul_right _ (by simp)) hroom
+    obtain ⟨_, L1, h1, hlen1, hent, hoth⟩ := diskInv_append c hc p i f L t pay h hfo.1 hfo.2 hroom1
+    have hstep : (Eng.step c p (.append t pay)).1 =
+        { (appendForTopic c p i t pay).1 with inst := some (appendForTopic c p i t pay).2.1 } := by
+      simp only [Eng.step, withInst, hi]
+    have hroom2 : (L1.length + r.length) * c.blockSize ≤ c.fileSize :=
+      Nat.le_trans (Nat.mul_le_mul_right _ (by simp only [List.length_cons] at *; omega)) hroom
+    obtain ⟨i2, L2, hi2, h2, hlen2, hent2⟩ := ih (Eng.step c p (.append t pay)).1 (appendForTopic c p i t pay).2.1 L1
+      (by rw [hstep]) (by rw [hstep]; exact diskInv_inst_irrelevant c _ _ _ f L1 h1)
+      (fun x hx => hf x (List.mem_cons_of_mem _ hx)) hroom2
+    refine ⟨i2, L2, hi2, h2, by simp only [List.length_cons]; omega, ?_⟩
+    intro t0
+    rw [hent2 t0]
+    by_cases e : t = t0
+    · subst e; rw [hent]; simp [List.filter_cons]
+    · rw [hoth t0 (fun x => e x.symm)]; simp [List.filter_cons, e]
+
+/-- **Friendly append programs are recovered** (`C06_friendly_appends_are_recovered` on `Eng.step`): a process with an
+open instance on a fresh WAL file runs any program of successful single-entry appends (ordinary topic names, entries
+of at most one unit, within one file); the recovery scan of the file then registers blocks that hold, topic by
+topic and in order, exactly the appended entries. -/
+theorem C06_friendly_append_programs_are_recovered (c : Cfg) (hc : CfgOK c) (p : Proc) (i : Inst) (f : Nat)
+    (hi : p.inst = some i) (hinit : DiskInv c p i f []) (ops : List (Topic × Pay)) (hf : Friendly c ops)
+    (hroom : ops.length * c.blockSize ≤ c.fileSize) (s : ScanSt) :
+    ∃ L : List LBlock, (∀ t, entriesOf t L = (ops.filter (fun x => x.1 = t)).map (·.2)) ∧
+      ∀ fuel, L.length < fuel →
+        scanFile c f (fileCells (execAppends c p ops).files f) fuel 0 s = L.foldl (blockStep c f) s := by
+  obtain ⟨i', L, _, hL, hlen, hent⟩ := diskInv_execAppends c hc f ops p i [] hi hinit hf (by simpa using hroom)
+  refine ⟨L, by intro t; rw [hent t]; simp [entriesOf], ?_⟩
+  intro fuel hfuel
+  have hlaid := fileLaid_of_layout c hc.meta_pos hc.bs_pos _ L [] (by simpa using hL.lay) (by simpa using hL.stray)
+    (by
+      simp only [List.length_nil, Nat.zero_add]
+      exact Nat.le_trans (Nat.mul_le_mul_right _ (by simpa using hlen)) hroom)
+  exact C06_scan_recovers_laid_file c hc.meta_pos f _ L 0 fuel s (by simpa using hlaid) hfuel
+
+/-- the starting point is what `open` on an empty directory produces -/
+example : ∃ i, (Eng.step smallCfg {} (.open_ .strict)).1.inst = some i ∧
+    DiskInv smallCfg (Eng.step smallCfg {} (.open_ .strict)).1 i 0 [] := by
+  have hcells : fileCells (Eng.step smallCfg {} (.open_ .strict)).1.files 0 = [] := by decide +kernel
+  cases hi : (Eng.step smallCfg {} (.open_ .strict)).1.inst with
+  | none => exact absurd hi (by decide +kernel)
+  | some i =>
+    have h1 : ((Eng.step smallCfg {} (.open_ .strict)).1.inst.map fun i => (i.allocFile, i.allocOff, i.writers.length)) =
+        some (0, 0, 0) := by decide +kernel
+    rw [hi] at h1
+    simp only [Option.map_some, Option.some.injEq, Prod.mk.injEq] at h1
+    obtain ⟨hf, ho, hw⟩ := h1
+    refine ⟨i, rfl, hf, by decide +kernel, by rw [ho]; rfl, trivial, ?_, ?_⟩
+    · intro x hx; rw [hcells] at hx; simp at hx
+    · intro t
+      have : i.writers = [] := List.eq_nil_of_length_eq_zero hw
+      rw [this]; simp [AMap.get?]
+
 /-- the starting point exists: an instance whose allocator stands at the beginning of an empty file -/
 example : DiskInv smallCfg { files := [{ dir := 0, name := 1, cells := [], present := true }] } {} 0 [] :=
   ⟨rfl, by decide, rfl, trivial, by intro x hx; simp [fileCells] at hx, by intro t; simp [AMap.get?, AMap.empty]⟩
